@@ -242,7 +242,7 @@ def multinomialState (probs : List α) (r : α) : Nat :=
 /-- `randMultinomial(n, probs)`: the `n` states; `draws` = the uniform draws -/
 def randMultinomial (probs : List α) : Nat → List α → R (List Nat)
   | 0, _ => .ok []
-  | n + 1, [] => .error .starved
+  | _ + 1, [] => .error .starved
   | n + 1, r :: rs =>
     match randMultinomial probs n rs with
     | .error e => .error e
